@@ -48,6 +48,7 @@ def make(cfg):
 
         run.fault_fn = fault
         stub = run.inv_stub if cfg.get("precond", "shampoo") == "shampoo" else run.eig_stub
+        degraded = False
         for k in range(1, T + 1):
             grads, nan_grad = [], []
             for i, s in enumerate(cfg["params"]):
@@ -118,9 +119,19 @@ def make(cfg):
                     now = H.read(p)
                     for idx in (np.ndindex(*b.shape) if b.ndim else [()]):
                         symx.prove_equal(f"no parameter is modified by a step that raises PreconditionerValueError (param {pi}{list(idx)})", now[idx], b[idx], info)
+            if expect == "tolerance" and cfg.get("continue_after_raise") and k < T:
+                # a training loop that catches the error and keeps stepping: the counter stays above the tolerance, so every later failing refresh
+                # must raise again; from here on only the raise / no-raise decisions are compared (a raising step leaves a partially updated state)
+                degraded = True
+                run.k[0] = k_ref
+                continue
             if expect is not None:
                 _stored_finite(run, info)
                 return f"raised {expect} at step {k}"
+            if degraded:
+                if any(g is not None for g in grads):
+                    run.k[0] = k_ref
+                continue
             run.ref_step(grads)
             run.compare_state()
             run.compare_params()
@@ -164,6 +175,12 @@ def jobs_for(tier):
     # a block without any Kronecker factor (0-d parameter without merging; every dimension ignored) never fails and never counts as a failure
     add(params=[(2,), ()], mpd=2, merge=False, pf=1, sps=1, T=3, rebase=True, mode="raise", fixed=fixed, maxN=1)
     add(params=[(2, 2), (2,)], mpd=2, merge=False, pf=1, sps=1, T=2, rebase=True, mode="raise", fixed=fixed, precond="soap_eigh", ignored_dims=[0, 1], maxN=1)
+    # the error is raised at EVERY failing refresh once the tolerance is exceeded (a loop that catches it and keeps stepping)
+    add(params=[(2,)], mpd=2, merge=False, pf=1, sps=1, T=4, mode="raise", fixed=fixed, maxN=1, continue_after_raise=True)
+    add(params=[(2, 2)], mpd=2, merge=False, pf=1, sps=1, T=3, mode="raise", fixed=fixed, precond="soap_eigh", maxN=0, continue_after_raise=True)
+    # a step that raises PreconditionerValueError leaves the parameters alone also when (decoupled) weight decay is on
+    add(params=[(2, 2), (2,)], mpd=2, merge=False, pf=1, sps=1, T=2, rebase=True, mode="nangrad", fixed=dict(mom=0, b1=0))
+    add(params=[(2, 2), (2,)], mpd=2, merge=False, pf=1, sps=1, T=2, rebase=True, mode="nan", fixed=dict(mom=0, b1=0), precond="soap_eigh")
     # a factor-less block AHEAD of blocks that can fail, with gradient presence changing between refreshes: counters stay with their own blocks
     add(params=[(), (2,), (2,)], mpd=2, merge=False, pf=1, sps=1, T=3, rebase=True, presence="symbolic", mode="raise", fixed=fixed, maxN=1)
     # a 1 x 1 factor is always diagonal: a non-finite gradient must still be caught in it
